@@ -3,6 +3,7 @@ package exec
 import (
 	"fmt"
 	"go/types"
+	"net"
 	"strings"
 
 	"kv/term"
@@ -622,6 +623,20 @@ func init() {
 		},
 		// dialling: the peer is always 192.0.2.1:3671; the connection object is an empty stub whose
 		// Read/Write/Close are the stubs of this table
+		"net.ParseIP": func(e *Exec, t *Thread, a []Value, g bool) (Value, bool) {
+			// documented contract, evaluated on the (concrete) text by the host's net.ParseIP:
+			// nil for anything that is not an IP address, else the 16-byte form
+			ip := net.ParseIP(e.strArg(a[0]))
+			if ip == nil {
+				return done(Slice{})
+			}
+			ip = ip.To16()
+			arr := e.newArrayObj(types.Typ[types.Uint8], 16)
+			for i := 0; i < 16; i++ {
+				arr.V.(*Array).E[i] = e.C.BVConst(8, uint64(ip[i]))
+			}
+			return done(Slice{Arr: arr, Len: 16, Cap: 16})
+		},
 		"net.ResolveUDPAddr": func(e *Exec, t *Thread, a []Value, g bool) (Value, bool) {
 			return done(Tuple{e.netPeerAddr("UDPAddr"), Iface{}})
 		},
